@@ -180,7 +180,43 @@ def run_total(prop, tier, seed, scratch):
     simple_run(prop, scratch, "%s-%s" % (prop, c0["name"]), c0,
                lambda p: ["total", "-in", p, "-prop", prop, "-seed", str(seed), "-strlen", "4" if q else "5",
                           "-random", "20000" if q else "2000000", "-picks", "1" if q else "2"], "total", cov, violations)
+    if not violations:
+        run_parser_sm(prop, tier, scratch, cov)
     return cov, violations
+
+
+def run_parser_sm(prop, tier, scratch, cov):
+    """Implementation-shaped model of the parser (spec/ParserSM.tla): design-level invariants by TLC, then every generated input
+    through the real parser with the verifStep hook. Differences are SPEC-DRIFT, never violations (DESIGN 1.3)."""
+    q = tier == "quick"
+    vh = build_harness(scratch)
+    mod = "---- MODULE MC ----\nEXTENDS ParserSM\n====\n"
+    cfg = ('CONSTANTS\n MaxLen = %d\n MaxDepth = 3\n Classes = {"{", "}", "[", "]", ",", ":", "q", "b", "s", "n", "d", "x", "i"}\n Roots = {"[", "{"}\n Emit = TRUE\n'
+           'SPECIFICATION Spec\nINVARIANTS TypeOK NoErrorOnViablePrefix AcceptTogether TreeAgree OkOnlyAtRootClose IllAlwaysError LineOK TraceOK\nCHECK_DEADLOCK FALSE\n'
+           % (6 if q else 7))
+    res = run_tlc(scratch, prop + "-parsersm", mod, cfg, ["ParserSM.tla"], 1800)
+    if not res["ok"]:
+        cov["spec_drift"].append("ParserSM.tla: TLC reports a problem in the implementation-shaped model itself: " + res["tail"][-500:])
+        log("[parser-sm] TLC did not finish cleanly: recorded as spec drift, no verdict taken from it")
+        return
+    out = scratch.path("sm.json")
+    rc, so, se, wall = run_vh(vh, ["sm", "-in", res["out_path"], "-out", out], 1800)
+    s = json.load(open(out))
+    cov["states"] += res["states"]
+    cov["transitions"] += res["transitions"]
+    cov["parser_sm"] = dict(tlc_states=res["states"], tlc_transitions=res["transitions"], max_input_len=6 if q else 7,
+                            invariants=["NoErrorOnViablePrefix", "AcceptTogether", "TreeAgree", "OkOnlyAtRootClose", "IllAlwaysError", "LineOK"],
+                            inputs_replayed_with_hook=s["inputs"], state_class_triples_driven=s["state_class_triples_driven"],
+                            spec_drift=len(s.get("spec_drift") or []))
+    for d in (s.get("spec_drift") or []):
+        cov["spec_drift"].append("ParserSM.tla vs parser.go: " + d)
+    cov["traces_validated_against_impl"] += s["inputs"]
+    log("[parser-sm] %d states; %d inputs replayed with the hook, %d (machine,state,class) triples driven, %d drift" %
+        (res["states"], s["inputs"], s["state_class_triples_driven"], len(s.get("spec_drift") or [])))
+    try:
+        os.remove(res["out_path"])
+    except OSError:
+        pass
 
 
 def run_errline(prop, tier, seed, scratch):
